@@ -8,6 +8,7 @@ IsTable(o) == o.kind = "table"
 Verdict(o) ==
     LET t == o.t  cond == o.cond  out == o.out IN
     IF o.after # t THEN "operand_changed"
+    ELSE IF o.filter_after # o.filter_before THEN "filter_argument_changed"     \* the caller's dict of conditions is his own
     ELSE CASE o.op = "inc" ->
                 IF ~IsTable(out) THEN "inc_not_a_table"
                 ELSE IF Range(out.cols) # ColSet(t) THEN "inc_columns"
